@@ -1050,7 +1050,7 @@ impl Compiler {
                     self.compile_assert_type(temp_register, *type_hint, Some(arg), ctx)?;
                     self.pop_register()?; // temp_register
                 }
-                Node::PackedId(maybe_id) if is_first_arg => {
+                Node::PackedId(maybe_id) if is_first_arg && !is_last_arg => {
                     if let Some(id) = maybe_id {
                         // e.g. [first..., x, y]
                         // We want to assign the slice containing all but the last two items to
